@@ -410,6 +410,18 @@ pub fn end_to_end(ctx: &mut Ctx) {
         let beta = if idx % 4 == 0 { 0.5 } else { rng.uniform(0.05, 0.5) };
         let mut eb = e0.clone();
         eb.condition.set_beta(beta);
+        if idx % 5 == 2 {
+            // beta is set on the condition *before* the voices' defaults are loaded into it
+            let mut c = jbonsai::Condition::default();
+            c.set_beta(beta);
+            if c.load_model(&base.voices).is_err() {
+                ctx.violation("load-model-err", J::from(descr.clone()));
+                return;
+            }
+            eb = jbonsai::Engine::new(base.voices.clone(), c);
+            cond.apply(&mut eb);
+            ctx.count("beta_set_before_load_model", 1.0);
+        }
         let labels = env.corpus.random_utterance(rng, 1, if ctx.quick() { 4 } else { 12 });
         let (Ok(r0), Ok(rb)) = (run_with_hooks(&e0, labels.clone()), run_with_hooks(&eb, labels.clone())) else {
             ctx.violation("synthesize-err", J::from(descr.clone()));
